@@ -1091,3 +1091,64 @@ def hook_store(P, E, prefixes=None):
     if n == 0:
         r.error("HOOK-STORE: no setter in scope")
     return r
+
+
+# --------------------------------------------------------------------------- O-slot-purity
+def o_slot_purity(P, E):
+    """Observer::new gives each user callback to exactly one slot: what the next-slot's closure owns derives from the `next`
+    parameter only, the error-slot's from `error`, the complete-slot's from `complete`.  A slot closure that also owns another
+    callback can invoke it behind the observer's arbitration (the error handler called from the next slot: the subscriber sees
+    an error and then more items - the typestate rules only see calls made through the slots)."""
+    r = RuleResult("O-slot-purity", "each user callback of Observer::new is owned by its own slot's closure only")
+    nb = P.body(OBSERVER + "::new")
+    if nb is None:
+        r.error("anchor missing: Observer::new")
+        return r
+    ren = P.facts.get("_field_renames_q") or {}
+    a = P.adts.get(OBSERVER)
+    canon = [ren.get((OBSERVER, f["name"]), f["name"]) for f in a["variants"][0]["fields"]] if a else []
+
+    def params_of(b, op, depth=0, seen=None):
+        seen = seen if seen is not None else set()
+        out = set()
+        if depth > 8 or not isinstance(op, dict) or op.get("k") not in ("copy", "move"):
+            return out
+        for t in b.operand_prov(op):
+            if (b.id, t) in seen:
+                continue
+            seen.add((b.id, t))
+            if t[0] == "param":
+                out.add(t[1])
+            elif t[0] == "agg":
+                rv = b.blocks[t[1][0]]["stmts"][t[1][1]]["rv"]
+                for o in rv.get("ops", []):
+                    out |= params_of(b, o, depth + 1, seen)
+            elif t[0] == "ret":
+                k = b.call_at(t[1])
+                if k is not None:
+                    for o in k.args:
+                        out |= params_of(b, o, depth + 1, seen)
+        return out
+    built = 0
+    for i in sorted(nb.reach):
+        for st in nb.blocks[i]["stmts"]:
+            if st["k"] == "assign" and st["rv"]["k"] == "agg" and st["rv"].get("ak") == "adt" and norm(st["rv"].get("def") or "") == OBSERVER:
+                built += 1
+                want = {"fn_next": 1, "fn_error": 2, "fn_complete": 3}
+                for fld, pi in want.items():
+                    if fld not in canon:
+                        r.error("O-slot-purity: field %s not identified" % fld)
+                        continue
+                    got = params_of(nb, st["rv"]["ops"][canon.index(fld)])
+                    r.instance((nb.nid, fld), True, "owns constructor parameter(s) %s" % sorted(got))
+                    if got - {pi}:
+                        names = {1: "next", 2: "error", 3: "complete"}
+                        r.violate((nb.nid, fld, "slot owns another callback"),
+                                  "the `%s` slot of a new Observer also owns the user's %s callback: it can be invoked from that slot, "
+                                  "outside the arbitration the `%s` slot is subject to" % (fld, "/".join(names.get(x, "?") for x in sorted(got - {pi})),
+                                                                                          "/".join("fn_" + names.get(x, "?") for x in sorted(got - {pi}))), body=nb)
+                    if pi not in got:
+                        r.violate((nb.nid, fld, "slot does not own its callback"), "the `%s` slot of a new Observer is not built from the matching callback" % fld, body=nb)
+    if not built:
+        r.error("O-slot-purity: Observer::new builds no Observer value")
+    return r
